@@ -1,6 +1,5 @@
 # Claims table consumed by mkmanifest.py.
 NOT_APPLICABLE = {
-    "C07": "recall floors and small-index exactness are numeric outcomes of a randomised construction over arbitrary data; no structural necessary condition exists beyond C06's admission guards (DESIGN.md §5)",
 }
 CLAIMS["C03"] = dict(
     ref="DESIGN.md §4 C03",
@@ -115,7 +114,14 @@ CLAIMS["C17"] = dict(
 
 CLAIMS["C20"] = dict(
     ref="DESIGN.md §4 C20",
-    text="Decides structural necessary conditions of totality and boundedness: the recursive splitter gives back what it removes — the separator is partitioned into a whitespace joiner and a kept content part that is put in front of every piece after the first (TBL-sep); only text whose length entered the ChunkSize comparison is added to a chunk, every built-in separator table ends with the character-level fallback, and the overlap tail is chosen knowing the next piece's length (GRD-size); recursion runs on a strictly shorter separator list, FixedSizeChunker's step is positive on every path into its loop, the tail loop shrinks (GRD-progress); assembleContext selects a chunk only on the within-budget edge and counts it (GRD-budget); expandGraphBFS expands only below depth limit and node cap, enqueues only unvisited neighbours after marking them, and advances its queue head on every iteration (GRD-expand); negations/connectives are protected before any removal table is consulted and no table lists one (TBL-stop); the text functions contain no map iteration, goroutine, clock or randomness (EFF-det). Absence of panics in the stemmers, the exact chunk-length bound as arithmetic, and token counts of the assembled text (joiners are not counted by the code) are NOT decided.",
+    text="Decides structural necessary conditions of totality and boundedness: the recursive splitter gives back what it removes — the separator is partitioned into a whitespace joiner and a kept content part that is put in front of every piece after the first (TBL-sep); only text whose length entered the ChunkSize comparison is added to a chunk, every built-in separator table ends with the character-level fallback, and the overlap tail is chosen knowing the next piece's length (GRD-size); recursion runs on a strictly shorter separator list, FixedSizeChunker's step is positive on every path into its loop, the tail loop shrinks (GRD-progress); assembleContext selects a chunk only on the within-budget edge and counts it (GRD-budget); expandGraphBFS expands only below depth limit and node cap, enqueues only unvisited neighbours after marking them, and advances its queue head on every iteration (GRD-expand); negations/connectives are protected before any removal table is consulted and no table lists one (TBL-stop); the text functions contain no map iteration, goroutine, clock or randomness (EFF-det); every index/slice expression of tokeniser, stemmers, compressor, splitter and chunker is in bounds — its bounds check is eliminated by the Go compiler's prove pass, or covered by a length lower bound derived from the code's own guards (HasSuffix/HasPrefix, len comparisons, constant re-slicing, []rune of a non-empty string, the chunker's clamped window), or one of two hand-argued table exceptions (GRD-slice). Other panic sources (nil maps, conversions, the regexp engine), the exact chunk-length bound as arithmetic, and token counts of the assembled text (joiners are not counted by the code) are NOT decided.",
     note="Trusted: SSA value flow; the recognised shapes (strings.Split + mergeSplits, sep[:n]/sep[n:], TrimLeftFunc(unicode.IsSpace)). max_expansion_nodes is documented as a parameter of the graph strategy, so the greedy/density strategies (bounded by k seeds × one level) are not required to test it.",
-    technique="static analysis: SSA guard-dominance and value-provenance checks over splitter/chunker/retriever, constant-table checks over typed AST, effect (non-determinism source) scan over the static call tree",
+    technique="static analysis: SSA guard-dominance and value-provenance checks over splitter/chunker/retriever, constant-table checks over typed AST, effect (non-determinism source) scan over the static call tree, compiler bounds-check-elimination report combined with a length-lower-bound dataflow",
+)
+
+CLAIMS["C07"] = dict(
+    ref="DESIGN.md §10.3 C07",
+    text="Decides only the structural conditions behind the FIRST clause (an index of at most 2·M vectors has a fully connected base layer, so search is exact), on every insertion and repair path: the neighbour cap is h.mMax0 on the `level == 0` edge and h.m otherwise at every site that links or prunes, mMax0 is stored once as 2·m, and every call of selectNeighbors receives such a per-level cap (SIB-cap); selectNeighbors returns its candidates unchanged when they fit under the cap, and the layer search raises its working ef to at least k (GRD-keep); every caller hands selectNeighbors a list ordered by distance — a layer-search result or a slice sorted after its last append (SIB-sorted, the precondition of the neighbour heuristic on which the recall of every build/repair path rests). The recall floor on larger indexes, its stability under deletes/vacuum/refine/compression/restart, tie handling and exactness itself are numeric outcomes of a randomised construction and are NOT decided.",
+    note="A narrow claim: these are necessary conditions of the mechanism the property names, not evidence of recall. Bidirectional linking and entry-point re-election after vacuum are not checked (their shapes differ per insertion path; no sound common rule was found).",
+    technique="static analysis: sibling agreement of the per-level cap over all SSA sites that select or prune neighbours, guard shape of the keep-all and ef>=k tests",
 )
